@@ -1,6 +1,7 @@
 import Hyeong.Driver.NumOps
 import Hyeong.Model.ExecNum
 import Hyeong.Spec.Lang
+import Hyeong.Spec.Definition
 /-! Driver: execution traces of the model (`NumI`) and of the language definition (`Option Rat`). -/
 namespace Drv
 open HyE HyP
@@ -82,6 +83,19 @@ partial def traceInc {N : Type} [NumOps N] [ShowNum N] (p : List Cmd) (idx : Lis
       traceInc p idx (k + 1) c'.m fuel
         (acc.push s!"T {k + 1} {encState idx c'.m.1} O={encText (delta m.2.out c'.m.2.out)} E={encText (delta m.2.err c'.m.2.err)}")
 
+/-- mode `one` for the stand-alone definition (`Spec.Definition`): one command at a time with `HyD.run … 1` -/
+partial def traceOneD (p : List Cmd) (idx : List Nat) (s : HyD.State) (pc : Nat) (fuel : Nat) (acc : Array String) : Array String :=
+  if pc ≥ p.length then acc.push "END ok"
+  else if fuel = 0 then acc.push "END cut"
+  else
+    let r := HyD.run p 1 s pc
+    match r.2.2 with
+    | .halted h =>
+      (acc.push s!"X O={encText (delta s.out r.1.out)} E={encText (delta s.err r.1.err)}").push ("END " ++ stopStr (HyD.stopOf h))
+    | _ =>
+      traceOneD p idx r.1 r.2.1 (fuel - 1)
+        (acc.push s!"T {r.2.1} {encState idx (HyD.toSt r.1)} O={encText (delta s.out r.1.out)} E={encText (delta s.err r.1.err)}")
+
 def execOp (spec : Bool) (mode prog stdin max : String) : String :=
   let p := decProg prog
   let idx := candidates p
@@ -90,7 +104,7 @@ def execOp (spec : Bool) (mode prog stdin max : String) : String :=
   let recs :=
     if spec then
       match mode with
-      | "one" => traceOne (N := V) p idx ⟨(St.init, w), 0⟩ fuel #[]
+      | "one" => traceOneD p idx (HyD.initial (decText stdin)) 0 fuel #[]
       | "inc" => traceInc (N := V) p idx 0 (St.init, w) 100000 #[]
       | _ => #["BADMODE"]
     else
